@@ -23,7 +23,11 @@ META = {
                   "barycentric weights >= 0 summing to 1 on the chosen face and carry that face's unit normal; the vector "
                   "handed to numpy's choice is >= 0, sums to 1 and is proportional to length/area; de Casteljau equals the "
                   "Bernstein polynomial (binomial coefficients proved to be n!/(k!(n-k)!)), interpolates end/corner points, "
-                  "is a convex combination on [0,1], rejects parameters outside [0,1]; only a polyline with at most one edge bypasses "
+                  "is a convex combination on [0,1] (curves: weights >= 0 summing to 1; patches: product weights b_j(v) b_i(u) >= 0 "
+                  "summing to 1 over ALL control points; every coordinate between the extreme control values), rejects parameters "
+                  "outside [0,1]; the code's edge length / triangle area / unit normal / cross product (component expressions "
+                  "generated from geometry.py, vector.py and the attribute functions) are proved equal to the Euclidean "
+                  "definitions the probability and normal theorems are stated with; only a polyline with at most one edge bypasses "
                   "choice(NE, size=n, p=lengths/sum) (theorem on the generated NE test; sample_surface has no bypass); export indices are in range and "
                   "grid-consistent for all (n1,n2). NOT proved (statistical): that the observed share of samples per "
                   "edge/face follows length/area - numpy's choice is trusted, a chi-square test in the thorough tier is "
@@ -156,7 +160,7 @@ def gen_box(rng):
     p1 = [dy(rng) for _ in range(d)]
     p2 = [a + rng.randint(1, 24) / 8 for a in p1]
     r = rng.random()
-    if r < 0.07:
+    if r < 0.10:
         k = rng.randrange(d)
         p2[k] = p1[k] if rng.random() < 0.5 else p1[k] - 0.5   # empty box
     mode = rng.choice(["uniform", "grid", "grid"])
